@@ -74,6 +74,11 @@ def op_templates(deep=False):
 
 
 OPS = op_templates()
+OPS_CORE = [('next',), ('forward', 1), ('forward', 2), ('backward', 1), ('backward', 2), ('peek', -1), ('peek', 0), ('peek', 1),
+            ('peekr', 0, 2), ('peekr', -1, 1), ('slice', None, None), ('slice', 1, 3), ('slice3', None, None, 2), ('hasNext', 1),
+            ('hasNext', 2), ('startswith', 'a'), ('startswith', 'ab'), ('endswith', 'a'), ('forward_until', 'never'),
+            ('forward_until', 'is_b'), ('num_forward_until', 'is_b'), ('forward_until_buf', 'sw_b'), ('forward_until', 'pos_ge_2'),
+            ('num_forward_until', 'b_after_3')]
 BIG = (33, 64, 65, 100, 127, 128, 129, 130, 150, 200, 255, 256, 257, 258, 300, 511, 512, 513, 600, 1000, 1024, 1025)
 
 
@@ -300,22 +305,26 @@ def run_sequence(backing, source, ops, flags=None, genuine=False):
 
 
 def plan(ctx):
-    depth = ctx.pick(3, 4)
+    depth = 3
     shards = []
     sources = [('str', s) for s in STR_SOURCES] + [('tok', s) for s in TOK_SOURCES]
     # one shard per (first op) bucket, striped over 16 workers
     nshard = 16
     for i in range(nshard):
         shards.append(('bfs', depth, i, nshard, sources))
+    if ctx.thorough:
+        # depth 4 over a core of the operation templates
+        shards += [('bfs4core', 4, i, 32, sources) for i in range(32)]
     rnd = [('rnd', ctx.pick(400, 6000), i) for i in range(16)]
     big = [('big', ctx.pick(120, 3000), i) for i in range(16)]
     return [('shard_bfs', shards), ('shard_random', rnd), ('shard_long', big)]
 
 
 def shard_bfs(ctx, shard):
-    _, depth, idx, nshard, sources = shard
+    label, depth, idx, nshard, sources = shard
     H.import_repo()
     res = H.Result()
+    OPS = OPS_CORE if label == 'bfs4core' else globals()['OPS']
     nops = len(OPS)
     seen_kinds = set()
     total = 0
